@@ -44,6 +44,9 @@ def run(ctx):
     ls.append(u2_lemma())
     # K2: readers on copy-mode tapes with arbitrary Message contents
     ls += [l for l in C02.t1_lemmas(ctx.tier, sizes=range(4, 8)) if ".Advance." in l.name or ".AdvanceInto." in l.name]
+    # ... and with the destinations of Root/Object/Array last used on ANOTHER document (the original of a clone, an earlier parse):
+    # nothing of that document may show through
+    ls += [l for l in C02.t1_lemmas(ctx.tier, sizes=range(5, 9), stale=1) if ".AdvanceIter." in l.name]
     # the parser side: in copy mode every string entry carries the buffer flag (asserted on every accepting path), in no-copy
     # mode the exposed document is the same
     ls += [l for l in lemmas_stage2.p3_lemmas(ctx.tier, ndjson=(0,)) if ".K3" in l.name or (ctx.tier != "quick" and ".K2" in l.name)]
